@@ -56,6 +56,9 @@ package characteristic
 //@ pred intInRange(c, x) = (typeis(c.MaxValue, "int") && typeis(c.MinValue, "int") && asint(c.MinValue) <= asint(c.MaxValue) ==> asint(c.MinValue) <= x && x <= asint(c.MaxValue)) &&
 //@      (typeis(c.MaxValue, "int") && !typeis(c.MinValue, "int") ==> x <= asint(c.MaxValue)) &&
 //@      (!typeis(c.MaxValue, "int") && typeis(c.MinValue, "int") ==> x >= asint(c.MinValue))
+// within the declared bounds (each bound that is present): clamping keeps such a value
+//@ pred intWithin(c, x) = (typeis(c.MaxValue, "int") ==> x <= asint(c.MaxValue)) && (typeis(c.MinValue, "int") ==> x >= asint(c.MinValue))
+//@ pred floatWithin(c, x) = (typeis(c.MaxValue, "float64") ==> x <= asfloat(c.MaxValue)) && (typeis(c.MinValue, "float64") ==> x >= asfloat(c.MinValue))
 //@ pred valOK(c, v) = (c.Format == "float" ==> typeis(v, "float64") && !isnan(asfloat(v)) && !isinf(asfloat(v)) && floatInRange(c, asfloat(v))) &&
 //@      (isIntFormat(c.Format) ==> typeis(v, "int") && intInRange(c, asint(v))) &&
 //@      (c.Format == "bool" ==> typeis(v, "bool")) && (isStrFormat(c.Format) ==> typeis(v, "string"))
@@ -67,11 +70,13 @@ package characteristic
 //@   requires c != nil
 //@   pure
 //@   ensures typeis(r, "float64") && (isnan(value) == isnan(asfloat(r))) && (!isnan(value) && !isinf(value) ==> floatInRange(c, asfloat(r)))
+//@   ensures same: !isnan(value) && floatWithin(c, value) ==> asfloat(r) == value
 //@   ensures !isnan(value) && !isinf(value) && !(typeis(c.MaxValue, "float64") && isinf(asfloat(c.MaxValue))) && !(typeis(c.MinValue, "float64") && isinf(asfloat(c.MinValue))) ==> !isinf(asfloat(r)) && !isnan(asfloat(r))
 //@ func (c *Characteristic) clampInt(value) (r)
 //@   requires c != nil
 //@   pure
 //@   ensures typeis(r, "int") && intInRange(c, asint(r))
+//@   ensures same: intWithin(c, value) ==> asint(r) == value
 //@ func (c *Characteristic) convert(v) (r)
 //@   requires c != nil
 //@   pure
@@ -79,10 +84,15 @@ package characteristic
 //@   ensures isIntFormat(c.Format) ==> typeis(r, "int")
 //@   ensures c.Format == "bool" ==> typeis(r, "bool")
 //@   ensures isStrFormat(c.Format) ==> typeis(r, "string")
+//   a value that already has the representation type of the format is kept (github.com/xiam/to conversions are identities there)
+//@   ensures idFloat: c.Format == "float" && typeis(v, "float64") ==> asfloat(r) == asfloat(v)
+//@   ensures idInt: isIntFormat(c.Format) && typeis(v, "int") && asint(v) >= 0 && asint(v) <= 9223372036854775807 ==> asint(r) == asint(v)
+//@   ensures idBool: c.Format == "bool" && typeis(v, "bool") ==> asbool(r) == asbool(v)
+//@   ensures idStr: isStrFormat(c.Format) && typeis(v, "string") ==> asstr(r) == asstr(v)
 
 //@ func (c *Characteristic) onValueUpdate(funcs, newValue, oldValue)
 //@   requires c != nil && forall(i, 0, len(funcs), funcs[i] != nil)
-//@   modifies heap, callcount
+//@   modifies when(len(funcs) > 0, heap), when(len(funcs) > 0, callcount)
 //@   ensures sameobj(c) && sametype(c) && sameheap("func") && modelKept() && callcount() >= old(callcount())
 //@   loop 0
 //@     invariant idx: 0 <= loopidx && loopidx <= len(funcs)
@@ -90,7 +100,7 @@ package characteristic
 //@     invariant nonnil: forall(i, 0, len(funcs), funcs[i] != nil)
 //@ func (c *Characteristic) onValueUpdateFromConn(funcs, conn, newValue, oldValue)
 //@   requires c != nil && forall(i, 0, len(funcs), funcs[i] != nil)
-//@   modifies heap, callcount
+//@   modifies when(len(funcs) > 0, heap), when(len(funcs) > 0, callcount)
 //@   ensures sameobj(c) && sametype(c) && sameheap("func") && modelKept() && callcount() >= old(callcount())
 //@   loop 0
 //@     invariant idx: 0 <= loopidx && loopidx <= len(funcs)
@@ -100,9 +110,16 @@ package characteristic
 // bounds declared by the constructors are finite floats (C15 pins them); needed so that clamping yields a finite value
 //@ pred finiteBounds(c) = (typeis(c.MaxValue, "float64") ==> !isinf(asfloat(c.MaxValue)) && !isnan(asfloat(c.MaxValue))) && (typeis(c.MinValue, "float64") ==> !isinf(asfloat(c.MinValue)) && !isnan(asfloat(c.MinValue)))
 
+// hasCallbacks: only then can anything but c.Value change (application callbacks run)
+//@ pred hasCallbacks(c) = len(c.valueChangeFuncs) > 0 || len(c.connValueUpdateFuncs) > 0
+//@ pred stores(c, checkPerms) = (!checkPerms || hasPerm(c.Perms, "pw")) && hasPerm(c.Perms, "pr")
 //@ func (c *Characteristic) updateValue(value, conn, checkPerms)
 //@   requires wellTyped(c) && finiteBounds(c)
-//@   modifies heap, callcount
+//@   modifies c.Value, when(hasCallbacks(c), heap), when(hasCallbacks(c), callcount)
+//@   ensures storedInt: old(stores(c, checkPerms)) && isIntFormat(c.Format) && typeis(value, "int") && asint(value) >= 0 && asint(value) <= 9223372036854775807 && old(intWithin(c, asint(value))) ==> typeis(c.Value, "int") && asint(c.Value) == asint(value)
+//@   ensures storedFloat: old(stores(c, checkPerms)) && c.Format == "float" && typeis(value, "float64") && !isnan(asfloat(value)) && !isinf(asfloat(value)) && old(floatWithin(c, asfloat(value))) ==> typeis(c.Value, "float64") && asfloat(c.Value) == asfloat(value)
+//@   ensures storedBool: old(stores(c, checkPerms)) && c.Format == "bool" && typeis(value, "bool") ==> typeis(c.Value, "bool") && asbool(c.Value) == asbool(value)
+//@   ensures storedStr: old(stores(c, checkPerms)) && isStrFormat(c.Format) && typeis(value, "string") ==> typeis(c.Value, "string") && asstr(c.Value) == asstr(value)
 //@   ensures typed: wellTyped(c)
 //@   ensures sameMeta: c.Format == old(c.Format) && c.Perms == old(c.Perms) && c.MinValue == old(c.MinValue) && c.MaxValue == old(c.MaxValue) && c.ID == old(c.ID)
 //@   ensures noWrite: checkPerms && !old(hasPerm(c.Perms, "pw")) ==> c.Value == old(c.Value) && callcount() == old(callcount())
@@ -117,8 +134,13 @@ package characteristic
 
 //@ func (c *Characteristic) UpdateValue(value)
 //@   requires wellTyped(c) && finiteBounds(c)
-//@   modifies heap, callcount
+//@   modifies c.Value, when(hasCallbacks(c), heap), when(hasCallbacks(c), callcount)
 //@   ensures wellTyped(c) && finiteBounds(c) && sametype(c) && sameheap("func") && modelKept()
+//@   ensures storedInt: old(hasPerm(c.Perms, "pr")) && isIntFormat(c.Format) && typeis(value, "int") && asint(value) >= 0 && asint(value) <= 9223372036854775807 && old(intWithin(c, asint(value))) ==> typeis(c.Value, "int") && asint(c.Value) == asint(value)
+//@   ensures storedFloat: old(hasPerm(c.Perms, "pr")) && c.Format == "float" && typeis(value, "float64") && !isnan(asfloat(value)) && !isinf(asfloat(value)) && old(floatWithin(c, asfloat(value))) ==> typeis(c.Value, "float64") && asfloat(c.Value) == asfloat(value)
+//@   ensures storedBool: old(hasPerm(c.Perms, "pr")) && c.Format == "bool" && typeis(value, "bool") ==> typeis(c.Value, "bool") && asbool(c.Value) == asbool(value)
+//@   ensures storedStr: old(hasPerm(c.Perms, "pr")) && isStrFormat(c.Format) && typeis(value, "string") ==> typeis(c.Value, "string") && asstr(c.Value) == asstr(value)
+//@   ensures noRead: !old(hasPerm(c.Perms, "pr")) ==> c.Value == old(c.Value)
 //@ func (c *Characteristic) UpdateValueFromConnection(value, conn)
 //@   requires wellTyped(c) && finiteBounds(c)
 //@   modifies heap, callcount
